@@ -11,6 +11,9 @@ NOTE = ("claims are over the reals within the bounds stated in the evidence file
         "classes and term transformations of /verif/vf (validated each run against the real code on floats), stub contracts listed in the evidence")
 
 CHECKS = {
+    "C09": ("5 C09", "driving-force function at a symbolic self-consistent permeate composed with the real DiffusionCurve constructor "
+                     "(3 modes x 2 feed bases): reported permeances = the ones used; curve from permeances in kg/SI/GPU: exposure in kg units, "
+                     "fluxes = P x feed pressure, re-inversion; the permeate-pressure basis mismatch is a characterised known finding"),
     "C07": ("5 C07", "relational: each entry point run with Composition(x_of_w(w), molar) and Composition(w, weight) in one exploration "
                      "(flux solver + helpers + one-point curve and metrics with the real loop, K = 1 (thorough 2); four process models N = 2 "
                      "(thorough 3) with step-wise lemma chaining; non-ideal curve; measurement extraction from molar vs mass-fraction curves)"),
